@@ -379,6 +379,49 @@ fn builtin_types(r: &Report) {
         r.add(sub, n, n);
         r.outcome(sub, "ArrayIter/MapIter", n);
     }
+    // Token: each variant is one head (or one whole scalar / string) with the value it carries
+    {
+        use minicbor::data::Token;
+        let mut n = 0u64;
+        let mut ok = 0u64;
+        for t in crate::c07::tokens() {
+            n += 1;
+            // the reference bytes are computed from the token's payload alone
+            let want: Option<Vec<u8>> = match &t {
+                Token::Bool(b) => Some(vec![if *b { 0xf5 } else { 0xf4 }]),
+                Token::U8(_) | Token::U16(_) | Token::U32(_) | Token::U64(_) | Token::I8(_) | Token::I16(_) | Token::I32(_) | Token::I64(_) | Token::Int(_) => match crate::c11::to_ref(&t) {
+                    crate::c11::RefTok::Int(v) => Some(Item::int(v).to_bytes()),
+                    _ => None,
+                },
+                Token::F16(x) => Some(Item::f16(refmodel::float::f32_to_f16(x.to_bits())).to_bytes()),
+                Token::F32(x) => Some(Item::f32(x.to_bits()).to_bytes()),
+                Token::F64(x) => Some(Item::f64(x.to_bits()).to_bytes()),
+                Token::Bytes(b) => Some(Item::bytes(b).to_bytes()),
+                Token::String(x) => Some(Item::text(x).to_bytes()),
+                Token::Array(k) => Some(preferred_head(4, *k)),
+                Token::Map(k) => Some(preferred_head(5, *k)),
+                Token::Tag(k) => Some(preferred_head(6, k.as_u64())),
+                // 20..=31: see the Encoder::simple finding (judged there, per argument)
+                Token::Simple(x) if *x < 20 || *x >= 32 => Some(Item::Simple(*x).to_bytes()),
+                Token::Simple(_) => None,
+                Token::Break => Some(vec![0xff]),
+                Token::Null => Some(vec![0xf6]),
+                Token::Undefined => Some(vec![0xf7]),
+                Token::BeginBytes => Some(vec![0x5f]),
+                Token::BeginString => Some(vec![0x7f]),
+                Token::BeginArray => Some(vec![0x9f]),
+                Token::BeginMap => Some(vec![0xbf]),
+            };
+            let out = mcx::par::guard(|| minicbor::to_vec(&t));
+            match (out, want) {
+                (Ok(Ok(o)), Some(w)) if o == w => ok += 1,
+                (Ok(Ok(_)), None) => ok += 1,
+                (o, w) => r.fail(sub, None, json!({"type": "Token", "value": format!("{:?}", t).chars().take(80).collect::<String>()}), format!("wrote {:?}, the head denoting this token is {:?}", o.map(|x| x.map(|b| hex(&b[..b.len().min(32)])).map_err(|e| e.to_string())), w.map(|b| hex(&b[..b.len().min(32)])))),
+            }
+        }
+        r.add(sub, n, ok);
+        r.outcome(sub, "Token", n);
+    }
     // IanaTag: encodes as the head of its registered number; Tag <-> IanaTag conversions are inverse
     {
         use minicbor::data::IanaTag::*;
